@@ -444,4 +444,222 @@ theorem cex_set_plain_full : ¬ set_plain_full := by
   rw [this] at hs
   exact h1 hs
 
+/-! ## The refusal clause -/
+
+inductive Op where | set | rm
+deriving DecidableEq
+
+/-- The documented reasons for which `set` / `rm` refuse an editable document, a well-formed path and a
+    well-formed value. Nothing here mentions the wrappers around the target set. -/
+inductive DocumentedReason (d : Doc) (op : Op) (segs : List Text) : Err → Prop
+  /-- `rm` of a key that no binding defines (KeyError) -/
+  | rmMissingKey : op = .rm → bindAt d.target segs = none → DocumentedReason d op segs .key
+  /-- a value on the way is not an attribute set (ValueError) -/
+  | nonSetOnPath (j : Nat) (lf : Node) : 0 < j → j < segs.length →
+      treeAt (denote d.target) (segs.take j) = some (.leaf lf) → DocumentedReason d op segs .value
+  /-- the path starts at an attrpath root: overwriting / removing the root as a whole, or an explicit
+      binding mixed into the attrpath family (ValueError; KeyError for `rm`) -/
+  | attrpathFamily (e : Err) : (findAttrpathRoot d.target.setValues (segs.headD [])).isSome = true →
+      (e = .value ∨ (op = .rm ∧ e = .key)) → DocumentedReason d op segs e
+
+/-- `set` refuses an editable document only for a documented reason. -/
+theorem refusal_set (d : Doc) (hw : WF d) (p : Text) (segs : List Text) (v : Node)
+    (hp : formatNPath currentAnchor p = .ok segs) (hplain : ∀ k ∈ segs.dropLast, plainKey k = true)
+    (e : Err) (d' : Doc) (hrun : setValue p (.one v) d = (.error e, d')) :
+    DocumentedReason d .set segs e := by
+  obtain ⟨c, vs, o, m, r, ht⟩ := (isSet_iff _).mp hw.isSet
+  have hne := formatNPath_ne_nil p segs hp
+  cases hl : (findAttrpathLeaf d.target segs).isSome with
+  | true =>
+    obtain ⟨d2, e2, _⟩ := set_attrpath_leaf_refines d hw p segs v hp hl
+    rw [e2] at hrun; cases hrun
+  | false =>
+    have hleaf : findAttrpathLeaf d.target segs = none := by
+      cases h : findAttrpathLeaf d.target segs with
+      | none => rfl
+      | some x => simp [h] at hl
+    rw [setValue_unscoped p v d hw.editable (formatNPath_unscoped p _ hp)] at hrun
+    cases hs : segs with
+    | nil => exact absurd hs hne
+    | cons seg0 rest =>
+      subst hs
+      rw [ht] at hleaf
+      cases hr : findAttrpathRoot d.target.setValues seg0 with
+      | some root =>
+        refine .attrpathFamily e (by simp [hr]) (Or.inl ?_)
+        rw [ht] at hr
+        cases rest with
+        | nil =>
+          simp only [setValueInAttrset, hp, ht, setSid_set, hleaf, List.isEmpty_nil, if_true, hr,
+            Option.isSome_some, EditM.throw_apply] at hrun
+          injection hrun with h1 _; injection h1 with h1; exact h1.symm
+        | cons seg1 rest2 =>
+          obtain ⟨final, hlast, _⟩ := getLast_split (seg0 :: seg1 :: rest2) (by simp)
+          simp only [setValueInAttrset, hp, ht, setSid_set, hleaf, hr, List.isEmpty_cons, Bool.false_eq_true,
+            if_false, setAttrpathValue] at hrun
+          cases hv : root.bindValue? with
+          | none => simp only [hv, EditM.throw_apply] at hrun; injection hrun with h1 _; injection h1 with h1; exact h1.symm
+          | some rv =>
+            cases hrs : rv.isSet with
+            | false =>
+              cases rv <;> simp [isSet] at hrs <;>
+                (simp only [hv, EditM.throw_apply] at hrun; injection hrun with h1 _; injection h1 with h1; exact h1.symm)
+            | true =>
+              obtain ⟨s2, vs2, o2, m2, r2, rfl⟩ := (isSet_iff rv).mp hrs
+              simp only [hv, EditM.bind_apply, hlast] at hrun
+              rcases setAttrpathWalk_res ((seg0 :: seg1 :: rest2).drop 1).dropLast (.set s2 vs2 o2 m2 r2) d rfl with
+                ⟨current, d1, ew, hcs⟩ | ⟨d1, ew⟩
+              · simp only [ew] at hrun
+                obtain ⟨cc, cvs, co, cm, cr, rfl⟩ := (isSet_iff current).mp hcs
+                by_cases h1 : (findNamedBinding (Node.set cc cvs co cm cr).setValues final (some true)).isSome = true
+                · simp only [h1, if_true, EditM.throw_apply] at hrun
+                  injection hrun with h1 _; injection h1 with h1; exact h1.symm
+                · simp only [h1] at hrun
+                  cases h2 : findNamedBinding (Node.set cc cvs co cm cr).setValues final (some false) with
+                  | some b =>
+                    simp only [h2] at hrun
+                    cases hb : b.bindId? with
+                    | none => simp [hb] at hrun
+                    | some bid => simp [hb] at hrun
+                  | none =>
+                    simp only [h2, setSid_set] at hrun
+                    cases hrun
+              · simp only [ew] at hrun
+                injection hrun with h1 _; injection h1 with h1; exact h1.symm
+      | none =>
+        rw [ht] at hr
+        cases rest with
+        | nil =>
+          exfalso
+          simp only [setValueInAttrset, hp, ht, setSid_set, hleaf, List.isEmpty_nil, if_true, hr,
+            Option.isSome_none, Bool.false_eq_true, if_false] at hrun
+          cases hf : findBinding (Node.set c vs o m r).setValues seg0 with
+          | some b =>
+            obtain ⟨d2, e2⟩ := assignExisting_ok (.set c vs o m r) (.set c vs o m r) true b v d
+            simp only [hf, e2] at hrun; cases hrun
+          | none =>
+            obtain ⟨d2, e2⟩ := setSetItem_ok (.set c vs o m r) seg0 v d rfl
+            simp only [hf, e2] at hrun; cases hrun
+        | cons seg1 rest2 =>
+          obtain ⟨final, hlast, hsplit⟩ := getLast_split (seg0 :: seg1 :: rest2) (by simp)
+          have hlen : (seg0 :: seg1 :: rest2).dropLast.length < (seg0 :: seg1 :: rest2).length := by simp
+          have hkn : (denote (Node.set c vs o m r)).nodup = true := by rw [← ht]; exact hw.keys
+          simp only [setValueInAttrset, hp, ht, setSid_set, hleaf, hr, List.isEmpty_cons, Bool.false_eq_true,
+            if_false, Option.isSome_none, EditM.bind_apply, hlast] at hrun
+          cases hwk : resolveParentWalk true (Node.set c vs o m r) (seg0 :: seg1 :: rest2).dropLast d with
+          | mk res d1 =>
+            cases res with
+            | error e1 =>
+              simp only [hwk] at hrun
+              injection hrun with h1 _; injection h1 with h1; subst h1
+              rcases resolveParentWalk_fail true _ _ d d1 e1 hplain rfl hkn hwk with ⟨he, j, hj, lf, htr⟩ | ⟨hc, _⟩
+              · subst he
+                refine .nonSetOnPath (j + 1) lf (by omega) (by omega) ?_
+                rw [ht, ← take_dropLast _ (j + 1) (by omega)]; exact htr
+              · cases hc
+            | ok parent =>
+              exfalso
+              simp only [hwk] at hrun
+              cases hf : findBinding parent.setValues final with
+              | some b =>
+                obtain ⟨d2, e2⟩ := assignExisting_ok (.set c vs o m r) parent true b v d1
+                simp only [hf, e2] at hrun; cases hrun
+              | none =>
+                have hps : parent.isSet = true := resolveParentWalk_isSet true _ _ d d1 parent rfl hwk
+                obtain ⟨d2, e2⟩ := setSetItem_ok parent final v d1 hps
+                simp only [hf, e2] at hrun; cases hrun
+
+/-- `rm` refuses an editable document only for a documented reason. -/
+theorem refusal_rm (d : Doc) (hw : WF d) (hcoh : Coh d.target) (p : Text) (segs : List Text)
+    (hp : formatNPath currentAnchor p = .ok segs) (hplain : ∀ k ∈ segs.dropLast, plainKey k = true)
+    (e : Err) (d' : Doc) (hrun : removeValue p d = (.error e, d')) :
+    DocumentedReason d .rm segs e := by
+  obtain ⟨c, vs, o, m, r, ht⟩ := (isSet_iff _).mp hw.isSet
+  have hne := formatNPath_ne_nil p segs hp
+  cases hl : (findAttrpathLeaf d.target segs).isSome with
+  | true =>
+    obtain ⟨d2, e2, _⟩ := rm_attrpath_refines d hw hcoh p segs hp hl
+    rw [e2] at hrun; cases hrun
+  | false =>
+    rw [removeValue_unscoped p d hw.editable (formatNPath_unscoped p _ hp)] at hrun
+    rw [ht] at hl hrun
+    cases hs : segs with
+    | nil => exact absurd hs hne
+    | cons seg0 rest =>
+      subst hs
+      cases hr : findAttrpathRoot d.target.setValues seg0 with
+      | some root =>
+        refine .attrpathFamily e (by simp [hr]) ?_
+        rw [ht] at hr
+        cases rest with
+        | nil =>
+          simp only [removeValueInAttrset, hp, hl, Bool.false_eq_true, if_false, List.isEmpty_nil, if_true, hr,
+            Option.isSome_some, EditM.throw_apply] at hrun
+          injection hrun with h1 _; injection h1 with h1; exact Or.inr ⟨rfl, h1.symm⟩
+        | cons seg1 rest2 =>
+          simp only [removeValueInAttrset, hp, hl, Bool.false_eq_true, if_false, List.isEmpty_cons, hr,
+            Option.isSome_some, if_true, removeAttrpathValue] at hrun
+          rcases walk_true_res (Node.set c vs o m r) (seg0 :: seg1 :: rest2) false with ⟨st, h1, h2⟩ | h1 | h1
+          · exfalso
+            have hn : (denote (Node.set c vs o m r)).nodup = true := by rw [← ht]; exact hw.keys
+            obtain ⟨_, hch⟩ := walk_chain _ _ _ _ _ hn rfl h2
+            obtain ⟨par, i, final, val, bf, af, g1, _⟩ := chain_last false _ _ st (by simp) hch rfl
+            simp [findAttrpathLeaf, h2, g1] at hl
+          · simp only [h1, EditM.throw_apply] at hrun
+            injection hrun with g _; injection g with g; exact Or.inr ⟨rfl, g.symm⟩
+          · simp only [h1, EditM.throw_apply] at hrun
+            injection hrun with g _; injection g with g; exact Or.inl g.symm
+      | none =>
+        rw [ht] at hr
+        cases rest with
+        | nil =>
+          simp only [removeValueInAttrset, hp, hl, Bool.false_eq_true, if_false, List.isEmpty_nil, if_true, hr,
+            Option.isSome_none] at hrun
+          cases hf : findBinding (Node.set c vs o m r).setValues seg0 with
+          | some b =>
+            exfalso
+            obtain ⟨i, ne, val, bf, af, _, _, rfl, _, _⟩ := findBinding_some _ _ _ hf
+            simp only [hf, Option.isNone_some, Bool.false_eq_true, if_false,
+              setDelItem_some _ seg0 c i ne val bf af d hf rfl] at hrun
+            cases hrun
+          | none =>
+            simp only [hf, Option.isNone_none, if_true, EditM.throw_apply] at hrun
+            injection hrun with h1 _; injection h1 with h1; subst h1
+            exact .rmMissingKey rfl (by rw [ht]; simp [bindAt, hf])
+        | cons seg1 rest2 =>
+          obtain ⟨final, hlast, hsplit⟩ := getLast_split (seg0 :: seg1 :: rest2) (by simp)
+          have hkn : (denote (Node.set c vs o m r)).nodup = true := by rw [← ht]; exact hw.keys
+          simp only [removeValueInAttrset, hp, hl, Bool.false_eq_true, if_false, List.isEmpty_cons, hr,
+            Option.isSome_none, EditM.bind_apply, hlast] at hrun
+          cases hwk : resolveParentWalk false (Node.set c vs o m r) (seg0 :: seg1 :: rest2).dropLast d with
+          | mk res d1 =>
+            cases res with
+            | error e1 =>
+              simp only [hwk] at hrun
+              injection hrun with h1 _; injection h1 with h1; subst h1
+              rcases resolveParentWalk_fail false _ _ d d1 e1 hplain rfl hkn hwk with ⟨he, j, hj, lf, htr⟩ | ⟨_, he, hb⟩
+              · subst he
+                have hlen : (seg0 :: seg1 :: rest2).dropLast.length < (seg0 :: seg1 :: rest2).length := by simp
+                refine .nonSetOnPath (j + 1) lf (by omega) (by omega) ?_
+                rw [ht, ← take_dropLast _ (j + 1) (by omega)]; exact htr
+              · subst he
+                refine .rmMissingKey rfl ?_
+                rw [ht, ← hsplit]; exact hb final
+            | ok parent =>
+              simp only [hwk] at hrun
+              obtain ⟨e1, e2⟩ := resolveParentWalk_false _ _ d (.ok parent) d1 hplain hwk
+              obtain ⟨hsub, hps⟩ := e2 parent rfl
+              cases hf : findBinding parent.setValues final with
+              | some b =>
+                exfalso
+                obtain ⟨i, ne, val, bf, af, _, _, rfl, _, _⟩ := findBinding_some _ _ _ hf
+                obtain ⟨pc, pvs, po, pm, pr, rfl⟩ := (isSet_iff parent).mp (hps rfl)
+                rw [setDelItem_some _ final pc i ne val bf af d1 hf rfl] at hrun
+                cases hrun
+              | none =>
+                rw [setDelItem_none _ _ _ hf] at hrun
+                injection hrun with h1 _; injection h1 with h1; subst h1
+                refine .rmMissingKey rfl ?_
+                rw [ht, ← hsplit, bindAt_snoc _ final _ parent hsub]; exact hf
+
 end Nima.C05
